@@ -206,7 +206,17 @@ func C17(c *Ctx) {
 					kind = "error text"
 				}
 				var hits []string
-				for _, a := range cc.Args {
+				// an argument printed with %T only contributes its type's name
+				checked := cc.Args
+				if typeOnly, elems := typeOnlyArgs(call); len(typeOnly) > 0 {
+					checked = append([]ssa.Value{}, cc.Args[:len(cc.Args)-1]...)
+					for _, e := range elems {
+						if !typeOnly[e] {
+							checked = append(checked, e)
+						}
+					}
+				}
+				for _, a := range checked {
 					for _, o := range sl.Origins(a) {
 						if s := c.secretSource(o, true); s != "" {
 							hits = append(hits, s+" (from "+posf(c, o.V.(ssa.Instruction))+")")
